@@ -87,6 +87,8 @@ def spec (line : String) (implOut : String) : String :=
         let cnt := (runs.map (·.2)).sum
         let mx := (runs.map (·.1)).foldl max 0
         if cnt ≠ d ∨ mx ≠ m then "fail inconsistent-report"
+        -- the path's real far-end receiver disagreed with the frame-by-frame verdict
+        else if (field "realrx" toks).isSome then "fail far-end-receiver-differs"
         -- "Every frame an agent writes to a peer carries at most 16,384 payload bytes."
         else if mx > limit then "fail frame-too-large"
         else if ctl ≠ "ok" then "fail frame-too-large-control"
